@@ -26,11 +26,12 @@ theorem stage_np {α} (cls : String) (p : PO α) (h : NoPanic p) : NoPanic (Mode
     by `alg.NewSigningKey(k)` from a non-nil parsed key -/
 def JwtFinderGood (o : Oracle) : Prop := ∀ q : Query, q.name = "jwt.findKey" → GoodHandle (o q)
 
-/-- **no_panic_jwt_parse** (header, allow-list, key finder, signature, payload base64): every byte
-    string, every policy, every oracle whose key-finder answers are good handles -/
-theorem no_panic_jwt_parse (cfg : Model.JWT.Cfg) (data : Bytes) :
-    NoPanicOn JwtFinderGood (Model.JWT.parse cfg data) := by
-  unfold Model.JWT.parse
+/-- `Parser.Parse` with ANY panic-free claims step: every byte string, every policy, every oracle
+    whose key-finder answers are good handles -/
+theorem no_panic_jwt_parseWith {γ : Type} (pc : Bytes → PO γ) (hpc : ∀ p, NoPanic (pc p))
+    (cfg : Model.JWT.Cfg) (data : Bytes) :
+    NoPanicOn JwtFinderGood (Model.JWT.parseWith pc cfg data) := by
+  unfold Model.JWT.parseWith
   split
   · exact NoPanicOn.of_noPanic (NoPanic.fail _)
   · split
@@ -53,7 +54,17 @@ theorem no_panic_jwt_parse (cfg : Model.JWT.Cfg) (data : Bytes) :
           · rename_i sk heq
             rw [heq] at hw
             apply NoPanicOn.of_noPanic
-            nopanic using (stage_np _ _ (b64Decode_np _)), (stage_np _ _ (verifyKey_np sk hw _ _))
+            nopanic using (stage_np _ _ (b64Decode_np _)), (stage_np _ _ (verifyKey_np sk hw _ _)), hpc
+
+theorem claimsOracle_np (p : Bytes) : NoPanic (Model.JWT.claimsOracle p) := by
+  unfold Model.JWT.claimsOracle; nopanic
+
+/-- **no_panic_jwt_parse** (header, allow-list, key finder, signature, payload base64; the claims
+    step as one oracle answer) -/
+theorem no_panic_jwt_parse (cfg : Model.JWT.Cfg) (data : Bytes) :
+    NoPanicOn JwtFinderGood (Model.JWT.parse cfg data) := by
+  unfold Model.JWT.parse
+  exact no_panic_jwt_parseWith _ claimsOracle_np cfg data
 
 /-! ### claims (Model.JWTClaims): panic-free wherever NumericDate.UnmarshalJSON is -/
 
@@ -107,6 +118,14 @@ theorem no_panic_jwt_parseClaims (payload : Bytes) : NoPanic (Model.JWTClaims.pa
 theorem no_panic_jwt_claims_parse (cfg : Model.JWTClaims.Config) (data : Bytes) :
     NoPanic (Model.JWTClaims.parse cfg data) :=
   no_panic_jwt_claims_parse_partial ND.decode_noPanic cfg data
+
+/-- **no_panic_jwt_parse_full**: `jwt.Parser.Parse` assembled from the signature part (model of C01)
+    and the FULL claims step (model of C04/C10: iss / sub / aud of any shape, exp / nbf / iat of any
+    JSON type and number text, NumericDate): every byte string, every policy, every oracle whose
+    key-finder answers are good handles -/
+theorem no_panic_jwt_parse_full (cfg : Model.JWT.Cfg) (data : Bytes) :
+    NoPanicOn JwtFinderGood (Model.JWT.parseWith Model.JWTClaims.parseClaims cfg data) :=
+  no_panic_jwt_parseWith _ no_panic_jwt_parseClaims cfg data
 
 /-- `encodeClaims` (re-serialisation of parsed claims) never panics: `claimsMap` has no panic outcome -/
 theorem claimsMap_np (c : Model.JWTClaims.Claims) : (Model.JWTClaims.claimsMap c).NoPanic := by
